@@ -52,12 +52,15 @@ where
         let element_size = element.real_size();
 
         while !self.memory_tracker.will_fit_into_cache(element_size) {
-            if let Some(oldest_element) = self.buffer.pop_front() {
-                let oldest_size = oldest_element.real_size();
-                self.memory_tracker
-                    .decrement_used_memory(oldest_size.as_bytes_u64());
-                self.current_size -= oldest_size;
-            }
+            let Some(oldest_element) = self.buffer.pop_front() else {
+                // Nothing left to evict here: the memory is used by the caches of other partitions
+                // (or the element alone exceeds the limit). The element is not cached.
+                return;
+            };
+            let oldest_size = oldest_element.real_size();
+            self.memory_tracker
+                .decrement_used_memory(oldest_size.as_bytes_u64());
+            self.current_size -= oldest_size;
         }
 
         self.memory_tracker
